@@ -14,8 +14,8 @@ ID = 'C07'
 
 MANIFEST = {
     'engine': 'symx',
-    'text': 'Inductive-step bounded model checking of the real prior_combinations_sample source: the global counter starts in an ARBITRARY state satisfying the invariant max-min<=1 over a duplicate-free candidate list (symbolic counts; or empty = base case), the cap is symbolic (so it may change between batches), one call runs, and z3 shows on every path: len(out)=min(cap,m), distinct members of the list, every selected pre-count <= every unselected one, counter +1 exactly on the selected, invariant restored. One step from every invariant state covers batch sequences of any length.',
-    'note': 'Candidate lists of m<=5 (quick) / m<=7 (thorough) entries; counts in [0,4]; the process-global counter may also hold a foreign key of another candidate list; lists with duplicates are outside (the statement says stable duplicate-free list). The export clause (returned/exported counts = selections) is explored through the real streaming loop incl. the tail batch (condition export; the JSON file itself in C08).',
+    'text': 'Inductive-step bounded model checking of the real prior_combinations_sample source: the global counter starts in an ARBITRARY state satisfying the invariant max-min<=1 over a duplicate-free candidate list (symbolic counts; or empty = base case), the cap is symbolic (so it may change between batches), one call runs, and z3 shows on every path: len(out)=min(cap,m), distinct members of the list, every selected pre-count <= every unselected one, counter +1 exactly on the selected, invariant restored. One step from every invariant state covers batch sequences of any length. The process-global counter may in addition hold a foreign key of another candidate list; a large-cap condition explores caps around the module constant MAX_FEATURES_3MR (read from the source) with a longer candidate list.',
+    'note': 'Candidate lists of m<=5 (quick) / m<=8 (thorough) entries; counts in [0,4]; the process-global counter may also hold a foreign key of another candidate list; lists with duplicates are outside (the statement says stable duplicate-free list). The export clause (returned/exported counts = selections) is explored through the real streaming loop incl. the tail batch (condition export; the JSON file itself in C08).',
     'technique': 'symbolic execution of the real Python source with z3 from an arbitrary invariant pre-state (k-induction, k=1)',
 }
 
